@@ -2,6 +2,7 @@ package checks
 
 import (
 	"fmt"
+	"strings"
 
 	"verif.local/pvmon/internal/c19"
 	"verif.local/pvmon/internal/h"
@@ -34,14 +35,36 @@ func c19GeneratedLayouts(ctx *h.Ctx) {
 				k.Violation("layout-changes-acceptance", fmt.Sprintf("canonical layout: %q; scrambled layout %d: %q", ra.ErrString(), i, r.ErrString()), map[string]interface{}{"canonical": a.Src})
 				return
 			}
+			if !ra.OK() {
+				// both rejected: the same error (modulo its position, which moves with the layout), and a panic
+				// is never "the same" as an error
+				if (r.Panic != nil) != (ra.Panic != nil) || errorWithoutPosition(r.ErrString()) != errorWithoutPosition(ra.ErrString()) {
+					k.Violation("layout-changes-error", fmt.Sprintf("canonical layout: %q; scrambled layout %d: %q", ra.ErrString(), i, r.ErrString()), map[string]interface{}{"canonical": a.Src})
+					return
+				}
+				k.Count("generated_program_rejections_equal", 1)
+			}
 			if ra.OK() && r.Out != ra.Out {
 				k.Violation("layout-changes-output", fmt.Sprintf("scrambled layout %d compiles to a different output than the canonical layout of the same lexemes", i), map[string]interface{}{"canonical": a.Src, "canonical_out": ra.Out, "scrambled_out": r.Out})
 				return
 			}
+		}
+		if !ra.OK() {
+			rejectedValid(k, prog, ra, false)
 		}
 		if ra.OK() {
 			k.Count("generated_program_pairs_equal", 2)
 			k.Nontrivial("genprog", len(a.Lex), b.Lines)
 		}
 	})
+}
+
+// errorWithoutPosition strips the "line N:" prefix of an error text.
+func errorWithoutPosition(e string) string {
+	if strings.HasPrefix(e, "line ") {
+		if i := strings.Index(e, ": "); i > 0 {
+			return e[i+2:]
+		}
+	}
+	return e
 }
